@@ -4,7 +4,7 @@ from lexlib import *
 ID = "C11"
 COQ_FILES = COQ_LEX + ["Props/C11.v"]
 PROPS = "Props/C11.v"
-THEOREMS = ["C11_lex_tiles", "C11_tiles_rebuild", "C11_bom_only_exception"]
+THEOREMS = ["C11_lex_tiles", "C11_tiles_rebuild", "C11_bom_only_exception", "C11_lex_rebuilds_source"]
 AXIOMS_OK = []
 TRUSTED = TRUSTED_LEX
 ASSUMPTIONS = ["P-core: tiling of the input by the lexer's items is proved; that the AST built by the goyacc actions holds every token "
